@@ -10,8 +10,10 @@ Small-scope enumeration of construct templates:
     walrus in if / comprehension / while, del, assert, while-else, for-else, try/except/else/finally value flow,
     user raise with args, with, generators with send, keyword/star calls, inner classes, ...).
 Quick: every template in every applicable context (function, method, closure, generator, class body) plus EVERY
-ordered pair (outer, inner) of expression templates nested once, in the function context.  Thorough: the pairs in
-every context.  Every function is called on ALL argument pairs over {0, 1, -1, 2**70, 1.5, 'ab', (), [1, 2], None}.
+ordered pair (outer, inner) of expression templates nested once, in the function context.  Thorough: additionally
+the pairs whose outer template is one of the 15 scope-affecting ones (conditional, boolean, walrus, lambdas,
+comprehensions, generator expressions) in the closure, generator and class-body contexts (+3 150, ~8.6k functions;
+sized from the measured rate of the quick tier, 5.4k functions in ~12 min at load 40).  Every function is called on ALL argument pairs over {0, 1, -1, 2**70, 1.5, 'ab', (), [1, 2], None}.
 Oracle: CPython executing the identical source: value (type + repr), exception type, args of exceptions raised
 by user code (caught and returned inside the templates), and the ordered side-effect log.
 """
@@ -27,7 +29,7 @@ LEVEL_TEXT = ('Every one of ~100 construct templates (expressions: conditional, 
               'name/attribute/subscript/closure cell, unpacking forms, walrus placements, del, assert, loop-else, try/finally '
               'value flow, user raises, with, generators, call shapes) is compiled in every applicable context (function, '
               'method, closure, generator, class body) and every ordered pair of expression templates nested once is compiled '
-              '(function context; all contexts in thorough); each function is called on all 81 argument pairs over '
+              '(function context; thorough: pairs with a scope-affecting outer template also in closure/generator/class body); each function is called on all 81 argument pairs over '
               '{0, 1, -1, 2**70, 1.5, "ab", (), [1,2], None}; value type+repr, exception type, user exception args and the '
               'ordered side-effect log must equal CPython on the identical source.')
 LEVEL_NOTE = ('Nesting depth 2 for expressions (triples of the design are not enumerated); arity 2; programs using frames, locals(), '
@@ -326,6 +328,9 @@ r = (r, o.v)'''),
 ]
 
 CONTEXTS = ('function', 'method', 'closure', 'generator', 'classbody')
+# outer templates that open or depend on a scope: in thorough their pairs are also built in closure / generator / class body
+SCOPE_OUTERS = ('cond', 'and', 'or', 'not', 'walrus', 'lambda', 'lamdef', 'listcomp', 'listcompif', 'setcomp', 'dictcomp',
+                'genlist', 'gensum', 'gentuple', 'nestcomp')
 
 
 def _indent(text, n):
@@ -365,11 +370,13 @@ def family(tier):
     for nm, t in STMT:
         for c in CONTEXTS:
             out.append(('S:%s@%s' % (nm, c), t, c))
-    pair_ctx = ('function',) if tier == 'quick' else CONTEXTS
     for no, to in EXPR:
         for ni, ti in EXPR:
             inner = fill(ti, 'a', 'b')
-            for c in pair_ctx:
+            ctxs = ('function',)
+            if tier != 'quick' and no in SCOPE_OUTERS:
+                ctxs = ('function', 'closure', 'generator', 'classbody')
+            for c in ctxs:
                 out.append(('P:%s(%s)@%s' % (no, ni, c), 'r = ' + fill(to, inner, 'b'), c))
     return out
 
@@ -500,7 +507,7 @@ def run(ctx):
                 'giving the same outcome for the same function collapse',
         'programs': st['programs'], 'modules_built': st['modules_built'],
         'expression_templates': len(EXPR), 'statement_templates': len(STMT), 'contexts': list(CONTEXTS),
-        'pairs_enumerated': len(EXPR) ** 2 * (1 if ctx.tier == 'quick' else len(CONTEXTS)),
+        'pairs_enumerated': sum(1 for t, _, _ in fam if t.startswith('P:')),
         'not_applicable_in_context': skipped, 'argument_pairs': len(inputs['ab']),
         'mismatches': st['mismatches'], 'crashes': st['crashes'], 'build_failures': st['build_failures'],
         'compile_time_rejections_justified': justified, 'compile_time_rejections_unjustified': unjustified,
